@@ -1,0 +1,26 @@
+//go:build verif
+
+package eventcheck
+
+// Machine-checked contracts for /verif (read as text by the VC generator; no code).
+// The postcondition of Checkers.Validate is the property statement (C13) verbatim.
+//
+//@ const Lim = 2147483646
+//@ spec maxlamV(ps dag.Events, n int) int = ite(n <= 0, 0, max(maxlamV(ps, n-1), ps[n-1].Lamport()))
+//@ spec wellformed(e dag.Event, ps dag.Events) bool =
+//@   1 <= e.Seq() && e.Seq() < Lim && 1 <= e.Epoch() && e.Epoch() < Lim && 1 <= e.Frame() && e.Frame() < Lim && 1 <= e.Lamport() && e.Lamport() < Lim &&
+//@   (e.Seq() > 1 ==> len(e.Parents()) > 0) && distinctN(e.Parents(), len(e.Parents())) &&
+//@   e.Epoch() == curEpoch && has(curValidators.values, e.Creator()) &&
+//@   e.Lamport() == 1 + maxlamV(ps, len(ps)) &&
+//@   forall(i, 0, len(ps), (ps[i].Creator() == e.Creator()) == (i == 0 && e.Seq() > 1)) &&
+//@   (e.Seq() > 1 ==> e.Seq() == ps[0].Seq() + 1)
+//@
+//@ lemma maxlam_same(ps dag.Events, n int) by induction(n)
+//@   ensures maxlamV(ps, n) == maxlam(ps, n) && 0 <= maxlam(ps, n) && maxlam(ps, n) <= 4294967295
+//@
+//@ func (*Checkers).Validate
+//@   requires v != nil && v.Basiccheck != nil && v.Epochcheck != nil && v.Parentscheck != nil && v.Epochcheck.reader != nil && curValidators != nil
+//@   requires e != nil && spsem(e) && len(e.Parents()) == len(parents)
+//@   requires forall(i, 0, len(parents), parents[i] != nil && parents[i].ID() == e.Parents()[i])
+//@   ensures  (result == nil) == wellformed(e, parents)
+//@   hint use maxlam_same(parents, len(parents))
